@@ -388,15 +388,17 @@ func prodHighThresholdFilter(usage *NodeUsage, threshold NodeThresholds) bool {
 }
 
 func filterNodes(nodeSelector *metav1.LabelSelector, nodes []*corev1.Node, processedNodes sets.String) ([]*corev1.Node, error) {
-	if nodeSelector == nil {
-		return nodes, nil
-	}
-	selector, err := metav1.LabelSelectorAsSelector(nodeSelector)
-	if err != nil {
-		return nil, err
+	selector := labels.Everything()
+	if nodeSelector != nil {
+		var err error
+		selector, err = metav1.LabelSelectorAsSelector(nodeSelector)
+		if err != nil {
+			return nil, err
+		}
 	}
 	r := make([]*corev1.Node, 0, len(nodes))
 	for _, v := range nodes {
+		// also a pool without selector leaves alone what an earlier pool has balanced in this round
 		if processedNodes.Has(v.Name) {
 			continue
 		}
